@@ -263,8 +263,11 @@ class CtxEngine(object):
             ("sdram_alloc", lambda: (4 + 4 * t.draw(20), 0),
              ["x", "y", "app_id"], {}, "chip+app"),
             ("sdram_free", lambda: (0x60000408,), ["x", "y"], {}, "chip"),
-            ("send_signal", lambda: (["pause", "cont", "sync0", "usr1"]
-                                     [t.draw(4)],), ["app_id"], {}, "app"),
+            ("send_signal", lambda: (["pause", "cont", "sync0", "sync1",
+                                      "usr0", "usr1", "usr2", "usr3", "timer",
+                                      "exit", "start", "stop", "init",
+                                      "power_down"][t.draw(14)],),
+             ["app_id"], {}, "app"),
             ("count_cores_in_state", lambda: ("run",), ["app_id"], {}, "app"),
             ("load_routing_table_entries",
              lambda: ([RTE({Routes(t.draw(24))}, t.draw(1 << 20),
@@ -686,6 +689,16 @@ class CtxEngine(object):
             # only the stop signal of an application block can fail here
             exit_error = e
             w.probe("stop_signal_failed")
+        except (AssertionError, IndexError, KeyError, AttributeError,
+                TypeError, ValueError) as e:
+            from rigsim.runner import innermost_rig_frame
+            where = innermost_rig_frame(e)
+            if where is None or "/verif/" in str(e.__traceback__.tb_frame):
+                raise
+            w.violate("CTX", "entering/leaving a context block raised %s: %s "
+                      "(in %s)" % (type(e).__name__, e, where),
+                      kind="block-raised", exc=type(e).__name__)
+            return
         finally:
             top = stack[which].pop()
         after = obj.get_context_arguments()
